@@ -591,6 +591,34 @@ def partC(ctx, res, V, peers):
                       "a message within the announced maximum was not delivered intact to the peer session",
                       dict(rep, receiver=rfw, receiver_state={k: rr[k] for k in ("events", "exc", "tlog")}))
         R.call([{"op": "drop", "id": rid} for rid in ids])
+    # 2b. (thorough) the top of the range: exponent 15 announces 2^24, but a RawSocket length field has 24 bits
+    if thorough:
+        L = 2 ** 24
+        for fw in FWS:
+            P = peers[fw]
+            pid = P.new_id()
+            rs_handshake(P, pid, "server", ["json"], 15, "json")
+            t = P.call([{"op": "tx", "id": pid, "msgs": [["len", 7, L]]}])[0]
+            P.call([{"op": "drop", "id": pid}])
+            if not t["tx"][0]["ok"]:
+                V.add(f"rs-send/{fw}/exactly-2^24-refused", "a message of exactly the announced maximum 2^24 was refused", {"fw": fw, "tx": t["tx"]})
+                continue
+            wire = t["wrote"]
+            for rfw in FWS:
+                R = peers[rfw]
+                rid = R.new_id()
+                rs_handshake(R, rid, "client", ["json"], 15, "json")
+                rr = R.call([{"op": "rx", "id": rid, "chunks": [wire[:6], wire[6:2000], wire[2000:]]}])[0]
+                R.call([{"op": "drop", "id": rid}])
+                res.evaluations += 1
+                res.count(f"C:relay-2^24:{fw}->{rfw}")
+                msgs = [x for x in rr["events"] if x[0] == "msg"]
+                if rr["exc"] or rr["tlog"] or len(msgs) != 1 or msgs[0][1:] != t["tx"][0]["sent"]:
+                    V.add(f"rs-deliver/->{rfw}/exactly-2^24-misframed",
+                          f"a message of exactly 2^24 octets (the maximum exponent 15 announces) goes out with prefix {wire[:8]} "
+                          f"and is not delivered by the {rfw} receiver (exc={rr['exc']}, transport={rr['tlog']})",
+                          {"part": "send", "sender": fw, "receiver": rfw, "payload_len": L, "prefix": wire[:8],
+                           "receiver_state": {k: rr[k] for k in ("events", "exc", "tlog")}})
     # 3. receive side: a frame one octet above the local maximum is refused on its header, before any payload octet
     for rfw in FWS:
         for role in ("server", "client"):
@@ -869,8 +897,10 @@ def partE(ctx, res, V, peers):
     dq = ["ws.code ProtocolError", "ws.code Exception", "rs.ladder t ProtocolError", "rs.ladder t Exception",
           "rs.ladder a ProtocolError", "rs.ladder a Exception", "rs.life a l", "rs.life l", "rs.life a l l"]
     dr = dict(zip(dq, ctx.driver.run(dq)))
-    code_pe = int(dr["ws.code ProtocolError"])
-    code_ex = int(dr["ws.code Exception"])
+    code_pe, code_ex = 1002, 1011        # the Spec (RFC 6455 protocol error / internal error); the model's values follow the source
+    for q, want in (("ws.code ProtocolError", code_pe), ("ws.code Exception", code_ex)):
+        if int(dr[q]) != want:
+            res.correspondence_breaks.append({"stream": "E: close status constants read from the source vs Spec", "query": q, "model": dr[q], "spec": want})
     kinds = ["flip", "garbage", "truncated", "nonlist", "badtype", "empty", "raise:RuntimeError", "raise:ProtocolError",
              "raise:KeyError", "raise:InvalidUriError", "raise:SerializationError", "raise:PayloadExceededError", "outofphase"]
     sers = ["json", "msgpack", "cbor", "ubjson"] if thorough else ["json", "cbor"]
